@@ -117,7 +117,7 @@ func carve(order [3]int, parts [3][]byte) (rec []byte, out [3][]byte) {
 	for _, p := range parts {
 		total += len(p)
 	}
-	rec = make([]byte, total+16)
+	rec = make([]byte, total+256)
 	for i := total; i < len(rec); i++ {
 		rec[i] = 0xD7 ^ byte(i)
 	}
